@@ -851,6 +851,14 @@ FORMULA_STRINGS = [
     ("{[#A]|4}.{#A=[>]C=C[<]}", {"C": 8, "H": 10}),                                                # octatetraene
     ("{[#A][#B]}.{#A=[$]C1CC1,#B=[$]C1=CC=C1}", {"C": 7, "H": 8}),
     ("{[#A][#B]}.{#A=[$]c1ccc[nH]1,#B=[$]c1ccc[nH]1}", {"C": 8, "H": 8, "N": 2}),                  # 2,2'-bipyrrole
+    # blocks of a split aromatic unit written with lower-case atoms that stay outside any ring: surplus descriptors
+    # and open valences are filled with hydrogen like anywhere else
+    ("{[#S][#M]}.{#S=[$]s[$],#M=[$]C}", {"C": 1, "H": 4, "S": 1}),                                # methanethiol
+    ("{[#A]|3}.{#A=[>]sC=C[<]}", {"C": 6, "H": 8, "S": 3}),
+    ("{[#A][#B]}.{#A=[$]o[$],#B=[$]CC}", {"C": 2, "H": 6, "O": 1}),                               # ethanol
+    ("{[#A][#B][#A]}.{#A=[$]C,#B=[$]cc[$]}", {"C": 4, "H": 8}),                                   # 2-butene
+    ("{[#A][#B]}.{#A=[$]cc[$],#B=[$]O}", {"C": 2, "H": 4, "O": 1}),                               # vinyl alcohol
+    ("{[#A][#B]}.{#A=[$]n[$],#B=[$]C}", {"C": 1, "H": 5, "N": 1}),                                # methylamine
 ]
 
 
